@@ -298,7 +298,12 @@ pub mod verif_hooks {
     ) -> GenOutput {
         let docs_url_gen = DocsUrlGenerator::with_base_urls(None, Default::default());
         let target_language = target_language.strip_suffix('2').unwrap_or(target_language);
-        let mut attr_validator = hir::BasicAttributeValidator::new(target_language);
+        let backend_name = if target_language == "py-nanobind" {
+            "nanobind"
+        } else {
+            target_language
+        };
+        let mut attr_validator = hir::BasicAttributeValidator::new(backend_name);
         let (support, others) =
             attr_support(target_language).unwrap_or_else(|| panic!("Unknown target: {}", target_language));
         attr_validator.support = support;
